@@ -277,7 +277,7 @@ def run(ctx):
     #      stay what a fresh identical pipeline gives in a process where nothing else has been read (clean_reference)
     ohists = [json.loads(x) for x in sorted({json.dumps(h, sort_keys=True) for h in ohists})]
     if len(ohists) < 50: raise RuntimeError("only %d histories with reads of other environments" % len(ohists))
-    nb = len(pipes) if not ctx.quick else 31
+    nb = ctx.pick(31, min(len(pipes), 120))      # the curated pipelines (quick) / and the first random chains (thorough)
     clean = [clean_reference(f) for _, f in pipes[:nb]]
     rng3 = random.Random(ctx.seed * 104729 + 11); nother = 0; made = [0]
     for (desc, factory), cr in zip(pipes[:nb], clean):
@@ -433,7 +433,9 @@ KMAP = {0: 0, 1: 1, 2: 25, 3: 30, 4: 31}
 
 
 def replay(factory, h, ref, ref_params, kmap=None, tmp=None, others=None, norm=False):
-    env = factory()
+    try: env = factory()
+    except Exception as e:      # the same constructor calls built the reference: what was read in between made them fail
+        return ("build:raises:%s" % type(e).__name__, "building the pipeline again, with the arguments that built the reference, raised %s: %s" % (type(e).__name__, str(e)[:120]))
     read_once = False
     files = []
     try: return _replay(env, h, ref, ref_params, kmap, tmp, files, read_once, others, (lambda x: json.loads(json.dumps(x))) if norm else (lambda x: x))
